@@ -18,8 +18,16 @@ CMDS = {
     'M': b'MOVE 1 Other',
     'R': b'STORE 3 FLAGS ()',
     'C': b'COPY 2 INBOX',
+    # lower case: run by a third session that has nothing selected (its
+    # message lands in new/ and stays there until somebody SELECTs)
+    'a': b'APPEND INBOX ' + lit(msg(8)),
+    'N': b'NOOP',
+    'L': b'STORE * +FLAGS (\\Flagged)',
+    'Z': b'STORE * +FLAGS (\\Deleted)',
 }
 LETTERS = 'AFDXMRC'
+# histories around a message that stays in new/
+EXTRA = ['a', 'aN', 'aNL', 'aNZ', 'aNZX', 'aNLN', 'aL', 'aNM', 'aaNL']
 
 
 def scenarios(tier):
@@ -27,6 +35,7 @@ def scenarios(tier):
     for k in range(1, n + 1):
         for b in itertools.product(LETTERS, repeat=k):
             yield ''.join(b)
+    yield from EXTRA
 
 
 def run_one(layout, burst, mode, gap):
@@ -57,7 +66,7 @@ def run_one(layout, burst, mode, gap):
             return [Violation('idle-start', site, repr(st.raw))]
         loop = w.loop
         conds = []
-        if mode == 'p':
+        if mode == 'p' and not any(c.islower() for c in burst):
             s = ctx.session(1)
             data = b''.join(b'w%d ' % k + CMDS[c] + b'\r\n'
                             for k, c in enumerate(burst))
@@ -74,7 +83,7 @@ def run_one(layout, burst, mode, gap):
                 if k and gap:
                     loop.run_until_quiescent(horizon=gap)
                     ctx.pull_all()
-                conds.append(ctx.do(1, CMDS[c]).cond)
+                conds.append(ctx.do(2 if c.islower() else 1, CMDS[c]).cond)
         # from here on nothing but time
         loop.run_until_quiescent(horizon=3.5)
         st0 = ctx.open_steps.get(0)
